@@ -10,7 +10,7 @@ ID = "C02"
 PROOF_FILES = ["Geom", "Reverse", "Render", "Flatten", "GoodCert", "C02", "C02Skip", "C02Drop"]
 THEOREM = ("Ufo2ft.C02.C02_mixed / C02_render / C02_render_skip / C02_mixed_skip / C02_flatten / C02_points_perm / depth facts (+ shared geometry theorems); "
            "dropImpliedOnCurves: C02_drop_render / C02_drop_idempotent / C02_drop_round / C02_drop_round_bound / C02_drop_spec / "
-           "C02_drop_joint_compatible / C02_drop_joint_subset / C02_drop_joint_spec")
+           "C02_drop_joint_compatible / C02_drop_joint_subset / C02_drop_joint_maximal / C02_drop_joint_instance / C02_drop_joint_spec")
 N = {"quick": 160, "thorough": 3000}
 RULE = ("random fonts (line / quadratic contours incl. contours starting off-curve, open contours; component graphs depth<=4 with "
         "F2Dot14-exact matrices incl. mirrors/shears, half-integer offsets; mixed glyphs; shared bases/diamonds) x {convertCubics, "
@@ -30,15 +30,18 @@ RULE = ("random fonts (line / quadratic contours incl. contours starting off-cur
         "with one master's flags changed (incompatible); through compileVariableTTF(dropImpliedOnCurves=True, convertCubics=False) - every third designspace instead with the default options (convertCubics=True: "
         "fonts_to_quadratic), the masters then being the implementation's own compileInterpolatableTTFsFromDS output (unrounded, undropped) -: the variable font's "
         "default glyf entry per glyph compared with the model (`vfDefault`) and judged by `holdsJoint` (the default master's outline within rounding; the "
-        "point set left fits EVERY master); every gvar tuple must address exactly the points left + 4.")
+        "point set left fits EVERY master); every gvar tuple must address exactly the points left + 4; nothing impliable in ALL masters (the code's own two-armed test on the masters' unrounded "
+        "coordinates, among the points left) may be left; and the variable font is instantiated (fontTools.varLib.instancer) at every non-default master's location: the "
+        "instance must be that master's own points - those the default entry's flags pick - rounded, within 1 unit (compared exactly with the model `vfMaster` when "
+        "optimizeGvar=False, half of the designspaces).  Single fonts are also judged on the source coordinates: none of the source points still there passes the test.")
 ASSUMED = ["cu2qu (curve_to_quadratic) is external: its error bound is measured on the pre-processor's un-rounded output, not proved",
            "glyf binary encoding/decoding and maxp.recalc are fontTools'",
            "dropImpliedOnCurves: fontTools' dropImpliedOnCurvePoints / _is_mid_point are modelled from their source (fontTools 4.55) and tied through the "
            "compiled fonts only; `math.isclose` (rel_tol 1e-9) is modelled as equality of rationals (the generated coordinates are dyadic, where the two "
            "coincide); only quadratic glyphs (flags 0/1) - glyf-v1 cubic off-curve flags (allQuadratic=False) are not modelled",
            "dropImpliedOnCurves in the variable path: masters are taken as the modelled pre-processing of each source (convertCubics=False; reversal "
-           "optional); cubic masters (fonts_to_quadratic) with the option are not tied; of the variable font only the default master's glyf entry and the "
-           "gvar tuples' point counts are observed, not the deltas' values"]
+           "optional); cubic masters (fonts_to_quadratic) with the option are not tied; of the variable font the default master's glyf entry, the gvar tuples' point counts and the "
+           "instances at the masters' own locations are observed (gvar deltas in between the masters are varLib's interpolation, C10/C13)"]
 
 def _gen_base(rng, n, mode):
     for i in range(n):
@@ -194,7 +197,7 @@ def _gen_joint(rng, n, mode):
                     break
         yield {"joint": True, "names": names, "masters": [[glyphs[g][k] for g in names] for k in range(nm)],
                "dflt": rng.randrange(nm), "reverseDirection": rng.random() < 0.6, "lib": rng.choice(["ufoLib2", "defcon"]),
-               "bad": bad, "direct": i % 3 == 2 and bad is None}   # incompatible masters are rejected up-front by fonts_to_quadratic
+               "bad": bad, "direct": i % 3 == 2 and bad is None, "optimizeGvar": rng.random() < 0.5}   # incompatible masters are rejected up-front by fonts_to_quadratic
 
 
 def gen(rng, n, mode):
@@ -299,7 +302,7 @@ def _run_joint(case):
     # "direct" sub-stream: the default options (convertCubics=True: fonts_to_quadratic re-draws every glyph through segment
     # pens); the masters the joint drop starts from are then taken from the implementation itself, compiled by
     # compileInterpolatableTTFsFromDS (unrounded floats, nothing dropped) from an identical designspace
-    kw = {"useProductionNames": False, "reverseDirection": case["reverseDirection"]}
+    kw = {"useProductionNames": False, "reverseDirection": case["reverseDirection"], "optimizeGvar": bool(case.get("optimizeGvar", True))}
     if not direct:
         kw["convertCubics"] = False
     dmasters = None
@@ -315,7 +318,7 @@ def _run_joint(case):
                 s2.font = build(fd, case["lib"])
                 s2.name, s2.familyName, s2.styleName, s2.location = s0.name, s0.familyName, s0.styleName, dict(s0.location)
                 ds2.addSource(s2)
-            mds = ufo2ft.compileInterpolatableTTFsFromDS(ds2, **kw)
+            mds = ufo2ft.compileInterpolatableTTFsFromDS(ds2, **{k_: v for k_, v in kw.items() if k_ != "optimizeGvar"})
             dmasters = []
             for s2 in mds.sources:
                 glyf = s2.font["glyf"]
@@ -333,6 +336,16 @@ def _run_joint(case):
         buf = io.BytesIO(); tt.save(buf); buf.seek(0)
         tt = TTFont(buf)
         err = None
+        # the variable font instantiated at every non-default master's location: what is left of that master
+        from fontTools.varLib import instancer
+        insts = {}
+        for k in range(nm):
+            if k == dflt:
+                continue
+            buf.seek(0)
+            it = instancer.instantiateVariableFont(TTFont(buf), {"wght": locs[k]}, inplace=True)
+            b2 = io.BytesIO(); it.save(b2); b2.seek(0)
+            insts[k] = TTFont(b2)
     except Exception as e:
         tt, err = None, type(e).__name__
     for gi, n in enumerate(names):
@@ -340,16 +353,19 @@ def _run_joint(case):
             obs = {"err": err}
         else:
             var = tt["gvar"].variations.get(n, []) if "gvar" in tt else []
-            obs = {"err": None, "contours": _glyf_contours(tt, n), "gvar": [len(v.coordinates) for v in var]}
+            obs = {"err": None, "contours": _glyf_contours(tt, n), "gvar": [len(v.coordinates) for v in var],
+                   "inst": [[k, _glyf_contours(insts[k], n)] for k in sorted(insts)]}
         if direct and dmasters is not None:
             inp = {"masters": [dmasters[k][gi] for k in range(nm)], "dflt": dflt, "direct": True}
         else:
             inp = {"masters": [[[[rat(x), rat(y), t] for x, y, t in c] for c in masters[k][gi]] for k in range(nm)],
                    "dflt": dflt, "convertCubics": False, "reverseDirection": case["reverseDirection"]}
+        inp["inst"] = [k for k in range(nm) if k != dflt]
+        inp["optimizeGvar"] = bool(case.get("optimizeGvar", True))
         isbad = bool(case.get("bad")) and case["bad"][0] == n
         npts_src = sum(len(c) for c in masters[dflt][gi])
         npts_obs = sum(len(c) for c in obs.get("contours", [])) if obs.get("err") is None else npts_src
-        tags = ["joint", "joint-direct" if direct else "joint-source", "masters:%d" % nm, "rev:%s" % case["reverseDirection"], case["lib"], "err:" + str(obs.get("err")),
+        tags = ["joint", "joint-direct" if direct else "joint-source", "iup:%s" % bool(case.get("optimizeGvar", True)), "masters:%d" % nm, "rev:%s" % case["reverseDirection"], case["lib"], "err:" + str(obs.get("err")),
                 "dropped" if npts_obs < npts_src else "nodrop"] + (["incompatible"] if isbad else [])
         out.append({"op": "joint", "in": inp, "obs": obs, "tags": tags, "nontrivial": npts_obs < npts_src})
     return out
@@ -443,7 +459,21 @@ def agree(req, rep):
     if m.get("err") is not None or o.get("err") is not None:
         return (m.get("err") is not None) == (o.get("err") is not None)
     if req["op"] == "joint":
-        return m["contours"] == o["contours"]
+        if m["contours"] != o["contours"]:
+            return False
+        # instances at the master locations: exact, unless IUP-optimised deltas were asked for (inferred within 1/2, the
+        # instance rounded again: a unit off at ties)
+        tol = 1 if req["in"].get("optimizeGvar", True) else 0
+        if [e[0] for e in m.get("inst", [])] != [e[0] for e in o.get("inst", [])]:
+            return False
+        for (_, mc), (_, oc) in zip(m.get("inst", []), o.get("inst", [])):
+            if [len(c) for c in mc] != [len(c) for c in oc]:
+                return False
+            for c1, c2 in zip(mc, oc):
+                for p1, p2 in zip(c1, c2):
+                    if p1[2] != p2[2] or abs(p1[0] - p2[0]) > tol or abs(p1[1] - p2[1]) > tol:
+                        return False
+        return True
     mg = {g["name"]: g for g in m["glyphs"]}
     for g in o["glyphs"]:
         e = mg.get(g["name"])
@@ -518,9 +548,13 @@ LEVEL_TEXT = ("Proved (Lean, all inputs): after the TrueType pre-processing step
               "set is the intersection of the masters' droppable sets; witness: a point impliable in one master only is kept in all), C02_drop_joint_compatible "
               "(one mask for all masters; afterwards the same contour count, flags and contour ends; every master keeps each contour's outline - within rounding, "
               "exactly on the integer grid), C02_drop_joint_error (ValueError iff two participating masters differ in flags / contour structure), "
-              "C02_drop_joint_spec (what is left in the variable font's default glyf entry satisfies the joint predicate, for every list of masters).")
+              "C02_drop_joint_spec (what is left in the variable font's default glyf entry satisfies the joint predicate, for every list of masters), "
+              "restrict_contour (after any valid drop the test mask of what is left is the original mask at the kept positions), C02_drop_joint_maximal (after the joint drop "
+              "no point passes the test in all masters: the drop has happened and a second joint pass drops nothing), C02_drop_maximal_src (single font: none of the kept "
+              "source points is impliable on the unrounded coordinates), C02_drop_joint_instance (each master with the joint mask applied is that master's own points picked "
+              "by the default entry's flags - the predicate the instantiated variable font is judged by, at tolerance 0).")
 LEVEL_NOTE = ("Trusted: Lean kernel + standard axioms; correspondence harness; glyf codec and maxp.recalc (fontTools); cu2qu's error bound is "
               "a measured hypothesis (partial for the cubic clause); dropImpliedOnCurves=True is modelled for quadratic glyphs (fontTools' "
               "dropImpliedOnCurvePoints read from source, `math.isclose` as exact equality) and tied through compileTTF and compileVariableTTF "
-              "(default master's glyf entry + gvar point counts; convertCubics=False in the variable stream); mutants that only move the rounding before the "
-              "test (single or joint) keep the property and are reported as model disagreements without a failing input.")
+              "(default master's glyf entry + gvar point counts; convertCubics=False in the variable stream); default master's glyf entry, gvar point counts, instances at the master locations); mutants that move the rounding before the "
+              "test (single or joint) or skip the joint drop keep the rendered outline but leave impliable points: they fail the maximality clauses with a failing input.")
